@@ -5,4 +5,5 @@ let table : (string * (Model.z list -> Model.z list)) list = [
   ("msg_enc", Model.run_msg_enc);
   ("msg_dec", Model.run_msg_dec);
   ("frame_in", Model.run_frame_in);
+  ("frame_dec", Model.run_frame_dec);
 ]
